@@ -2,3 +2,8 @@ META = {
     "explanation": "result-set merging (`|`, `|=` dispatched through the real MRO, list_dict_or) is verified against the multiset-union specification; the four accumulators are folds of the verified merge",
     "out_of_reach": ["JSON parsing (json.load) and the SARIF/Sonar document schemas beyond the fields read by the readers"],
 }
+
+
+def extra_checks(tier="quick", seed=0):
+    from contracts.props.readers_bounded import run
+    return run(tier, seed)
